@@ -112,6 +112,28 @@ def grep_forbidden():
     return hits
 
 
+def tie_audit(pid, mod, theorems):
+    """Report only (never a verdict): which model definitions occurring (transitively, through Prop-level
+    definitions) in the STATEMENTS of the registered theorems are also reachable from the driver's `main`,
+    i.e. are executed against the real code by the correspondence, and which are specification-only
+    (well-formedness predicates, naive reference functions, normal forms)."""
+    tmpl = os.path.join(ROOT, "tools", "tie_audit.lean.tmpl")
+    if not os.path.exists(tmpl) or not theorems:
+        return None
+    path = os.path.join(LEAN, "Audit", f"{pid}Tie.lean")
+    with open(path, "w") as f:
+        f.write(open(tmpl).read().replace("@MOD@", mod))
+        f.write("#eval TieAudit.report [" + ", ".join("`" + t["name"] for t in theorems) + "]\n")
+    rc, out, dt = sh(["lake", "env", "lean", path], cwd=LEAN, timeout=1200)
+    m = re.search(r"TIE theorems=(\d+) model_defs_in_statements=(\d+) executed_by_driver=(\d+) spec_only=(\d+)", out)
+    if not m:
+        return {"error": out.strip()[-300:], "s": round(dt, 1)}
+    spec = re.search(r"TIE-SPEC-ONLY ?(.*)", out)
+    names = spec.group(1).split() if spec else []
+    return {"model_defs_in_theorem_statements": int(m.group(2)), "executed_by_driver": int(m.group(3)),
+            "spec_only": int(m.group(4)), "spec_only_names": names[:400], "s": round(dt, 1)}
+
+
 def lean_obligations(pid, thorough):
     """Build the property module, audit the axioms of every registered theorem."""
     reg = REG.get(pid, {})
@@ -151,6 +173,7 @@ def lean_obligations(pid, thorough):
     hits = grep_forbidden()
     if hits:
         res["failed"].append("forbidden tokens: " + "; ".join(hits[:5]))
+    res["tie"] = tie_audit(pid, mod, theorems)
     if thorough and not res["failed"]:
         rc, out, dt = sh(["lake", "env", "leanchecker", mod], cwd=LEAN, timeout=3000)
         res["leanchecker_s"] = round(dt, 1)
@@ -395,6 +418,7 @@ def check(pid, tier, seed):
         "notes": notes,
         "partial": reg.get("partial", ""),
         "lean_timing": {k: lean[k] for k in ("build_s", "audit_s", "leanchecker_s") if k in lean},
+        "tie_audit": lean.get("tie"),
     }
     ev = {
         "property_id": pid, "tier": tier, "seed": seed, "level": "proof", "coverage": cov,
